@@ -10,9 +10,16 @@ patch, props = args[0], args[1:]
 st = subprocess.run(["git", "-C", "/repo", "status", "--porcelain"], capture_output=True, text=True).stdout.strip()
 if st:
     print("/repo not clean:\n" + st); sys.exit(3)
-r = subprocess.run(["git", "-C", "/repo", "apply", patch])
+r = subprocess.run(["git", "-C", "/repo", "apply", patch], capture_output=True)
 if r.returncode:
-    print("patch does not apply"); sys.exit(3)
+    r = subprocess.run(["git", "-C", "/repo", "apply", "-C1", "--recount", patch], capture_output=True)
+if r.returncode:
+    r = subprocess.run(["patch", "-p1", "--fuzz=3", "-d", "/repo", "-i", patch, "--no-backup-if-mismatch"], capture_output=True, text=True)
+    if r.returncode:
+        subprocess.run(["git", "-C", "/repo", "checkout", "--", "."])
+        subprocess.run(["git", "-C", "/repo", "clean", "-fdq", "gpytorch"])
+        print("patch does not apply (even with fuzz)"); sys.exit(3)
+    print("(applied with patch --fuzz)")
 try:
     for p in props:
         r = subprocess.run(["/venv/bin/python", "/verif/vf/run.py", p, "--tier", tier], capture_output=True, text=True, cwd="/verif")
